@@ -81,7 +81,7 @@ static void pow_eval(PowCtx &C, int fn, mpz_srcptr b, mpz_srcptr e, mpz_srcptr m
 		else { PS.beyond[fn]++; if (x == X_NONE && have_ref && !mpz_cmp(out, ref)) PS.beyond_agree[fn]++; }
 	}
 	if (C.recr && (C.recr->next() % C.rec_den) == 0) {
-		J r; r.kv("k", "pw").kv("f", pow_name[fn]).kz("b", b).kz("e", e).kz("m", m).kv("t", (long long)(table ? C.t_pre : 0));
+		J r; r.kv("k", "pw").kv("f", pow_name[fn]).kz("b", b).kz("e", e).kz("m", m).kv("tb", (long long)(table ? C.t_pre : 0));
 		if (x == X_NONE) r.kz("o", out); else r.kv("x", exc_name(x));
 		record(r.str());
 	}
